@@ -52,6 +52,24 @@ def plan(tier, seed):
             specs.append(s)
         jobs.append({"kind": "rig", "hashseed": rng.randrange(1000),
                      "specs": specs})
+    # a real MD engine (TurtleMD double well) with 1-3 subcycles and tight
+    # length limits: membership of whatever the moves accept
+    for j in range(6 if tier == "quick" else 60):
+        specs = []
+        for _ in range(2):
+            specs.append({"engine": "turtlemd", "n_intf": 8, "workers": 1,
+                          "steps": rng.randint(25, 45),
+                          "seed": rng.randrange(2 ** 31), "policy": "fifo",
+                          "adv_seed": 0, "cap": None,
+                          "subcycles": rng.choice([1, 2, 3, 3]),
+                          "maxlength": rng.choice([40, 60, 120, 2000]),
+                          "n_jumps": rng.choice([2, 4]),
+                          "moves": rng.choice([
+                              ["sh"] * 8,
+                              ["sh", "sh", "wf", "wf", "wf", "wf", "wf",
+                               "wf"]])})
+        jobs.append({"kind": "rig", "hashseed": rng.randrange(1000),
+                     "specs": specs})
     # zero swaps with wire fencing in [0+], a narrow band and jumping frames
     # (driven through the real run_md by the C11 direct harness)
     for j in range(8 if tier == "quick" else 64):
@@ -106,7 +124,8 @@ def _mons(spec, cdir):
                                 f"{status} (md_items status {out['status']})")
             MoveMonitor.after_run_md(self, rig, out)
     return [M(check_zero_swap=False, subcycles=spec.get('subcycles', 1),
-              shift=spec.get('shift', 0.0))]
+              shift=spec.get('shift', 0.0),
+              lattice=spec.get('engine') != 'turtlemd')]
 
 
 def _nontrivial(rig, spec, mons):
